@@ -53,12 +53,12 @@ func (propC14) Decode(raw []byte) (interface{}, error) {
 
 func (propC14) Gen(seed uint64, ex map[string]bool) interface{} {
 	r := newR(seed)
-	f := Feat{MapLoops: true, Include: r.P(50), Inherit: r.P(30), Macros: r.P(40), Dashes: true, BlockDashes: r.P(15), RelPaths: r.P(20)}
+	f := Feat{MapLoops: true, Include: r.P(50), Inherit: r.P(30), Macros: r.P(40), Dashes: true, BlockDashes: r.P(5), RelPaths: r.P(20)}
 	p := genProgram(r, f)
 	// delimiter-heavy extra segments in the main template
 	extras := []string{
-		"{{ '}}' }}", "{{ \"%}\" ~ '{{' }}", "{% set q = '%}' %}{{ q }}", "{# {{ }} {% %} #}", "{#- c -#}", "é{{ s1 }}日", "{{s1}}{{n1}}",
-		"{%- if b1 -%} x {%- endif -%}", "  {{- s1 -}}  ", "{% verbatim %}{{ v }}{% endverbatim %}", "{ { } } % %", "{{ s1 }}\n\n{{- n1 }}", "\\{{ s1 }}", "{{ '\\'' }}",
+		"{{ \"}\" ~ '}' }}", "{{ \"%}\" ~ '{{' }}", "{% set q = '%' ~ '}' %}{{ q }}", "{# {{ }} {% %} #}", "{#- c -#}", "é{{ s1 }}日", "{{s1}}{{n1}}",
+		"{%- if b1 %} x {% endif -%}", "{% if b1 -%} x {% endif %}", "  {{- s1 -}}  ", "{% verbatim %}{{ v }}{% endverbatim %}", "{ { } } % %", "{{ s1 }}\n\n{{- n1 }}", "\\{{ s1 }}", "{{ '\\'' }}",
 		"{{ {'a': '}'}|json_encode }}", "{%if b1%}y{%endif%}", "{{\ns1\n}}", "{{ s1|default('{%') }}",
 	}
 	for ti := range p.Templates {
@@ -72,7 +72,13 @@ func (propC14) Gen(seed uint64, ex map[string]bool) interface{} {
 		n := r.Range(1, 4)
 		for i := 0; i < n; i++ {
 			at := r.N(len(t.Segs) + 1)
-			t.Segs = append(t.Segs[:at], append([]string{pick(r, extras)}, t.Segs[at:]...)...)
+			x := pick(r, extras)
+			if r.P(2) {
+				// spellings this engine rejects whatever the length (the outcome class is compared across knob
+				// vectors too, but a template that does not parse cannot be padded): kept rare
+				x = pick(r, []string{"{{ '}}' }}", "{% set q = '%}' %}{{ q }}", "{%- if b1 -%} x {%- endif -%}"})
+			}
+			t.Segs = append(t.Segs[:at], append([]string{x}, t.Segs[at:]...)...)
 		}
 	}
 	sc := &c14Sc{Prog: p, ViaFS: r.P(25)}
